@@ -431,8 +431,18 @@ class Audit:
                               expected=(r.task_hash, r.args_hash), actual=(node.task_hash, node.args_hash))
             rh = self.result_hash(r)
             if node.value_hash != rh:
-                ctx.violation("C20-node-result", "CallNode.value_hash is not the hash of the job's result", case,
-                              expected=rh, actual=node.value_hash)
+                same_value = False
+                if hit and r.outcome == "ok" and plain(r.result):
+                    vrow = ses.get(Value, node.value_hash)
+                    if vrow is not None:
+                        stored = self.backend._get_value_data(vrow)[0]
+                        same_value = pickle_identity_only(stored, r.result, self.registry.serialize(r.result))
+                if same_value:
+                    ctx.violation("C20-value-key-pickle-aliasing", "the value a cache-served job received re-hashes to another "
+                                  "key than the one recorded for the same (equal) value", case, expected=rh, actual=node.value_hash)
+                else:
+                    ctx.violation("C20-node-result", "CallNode.value_hash is not the hash of the job's result", case,
+                                  expected=rh, actual=node.value_hash)
             if not hit:
                 want = hs(["CallNode", r.task_hash, r.args_hash, rh, sorted(kid_hashes)])
                 if want != r.call_hash:
@@ -517,10 +527,9 @@ class Audit:
             except Exception as e:  # noqa: BLE001
                 got = "!" + type(e).__name__
             if got != v.value_hash:
-                if data is not None and val is not None and pickle_atom_aliasing_only(data, self.registry.serialize(val)):
-                    # the stored bytes and the re-serialized value differ only in pickle's memo references to str/bytes/int
-                    # atoms: the original object graph held two equal atoms as distinct objects (typically one computed by
-                    # a task and one read back from the cache), the unpickled graph shares them (or vice versa)
+                if data is not None and pickle_identity_only(data, val, self.registry.serialize(val)):
+                    # equal plain data, different pickle bytes: the original object graph shared (or did not share) equal
+                    # sub-objects differently from the unpickled one
                     ctx.violation("C20-value-key-pickle-aliasing", "a recorded container value does not re-hash to its key: "
                                   "pickle memoization makes the bytes depend on which equal atoms are the same object", case,
                                   expected=v.value_hash, actual=(got, v.type, repr(val)[:120]))
@@ -546,42 +555,53 @@ class Audit:
             ctx.violation("C20-tag-spurious", "a tag row that no job applied", case, expected=None, actual=sorted(got - want)[:4])
         self.stats["nodes"], self.stats["edges"], self.stats["tags"] = len(nodes), sum(map(len, edges.values())), len(got)
 
+    def sem_nodes(self):
+        """every recorded node by content instead of by value hash: (task, received arguments, result, children) with
+        values written out (repr) - what the node set looks like if equal values had equal hashes"""
+        w = self.watch
+        by_hash = {}
+        for jid in w.finish_order:
+            r = w.jobs[jid]
+            if r.call_hash and not (r.entered == "resolve" and r.pre_call_hash):
+                by_hash.setdefault(r.call_hash, r)
+        memo = {}
+
+        def sem(h):
+            if h not in memo:
+                r = by_hash.get(h)
+                if r is None:
+                    memo[h] = ("?", h)
+                else:
+                    res = repr(r.result) if r.outcome == "ok" else "!" + repr(r.error)
+                    memo[h] = (r.task_name, repr(r.eval_args), res, tuple(sorted(repr(sem(k)) for _, k in r.children if k)))
+            return memo[h]
+        return {repr(sem(h)) for h in self.nodes_seen}
+
     def recorded_after(self, child, parent):
         """was the CallNode `child` first written after the CallNode `parent`?"""
         return self.first_rec.get(child, 1 << 60) > self.first_rec.get(parent, -1)
 
 
-_ATOMS = {"BINUNICODE", "SHORT_BINUNICODE", "BINUNICODE8", "UNICODE", "BINBYTES", "SHORT_BINBYTES", "BINBYTES8", "BININT", "BININT1",
-          "BININT2", "LONG1", "LONG4", "INT", "LONG", "BINSTRING", "SHORT_BINSTRING", "BINFLOAT"}
+def plain(v):
+    """plain data: ints, strings, bytes, None, bools and lists / tuples / dicts of plain data"""
+    if v is None or isinstance(v, (bool, int, str, bytes)):
+        return True
+    if isinstance(v, (list, tuple)):
+        return all(plain(x) for x in v)
+    if isinstance(v, dict):
+        return all(plain(k) and plain(x) for k, x in v.items())
+    return False
 
 
-def _memo_free(data):
-    """opcode stream of a pickle with PUTs removed and every GET of a memoized *atom* replaced by the atom;
-    None when a GET refers to a container (genuine aliasing of mutable objects, not handled here)"""
-    import pickletools
-    out, memo, last, n = [], {}, None, 0
-    for op, arg, _ in pickletools.genops(data):
-        if op.name in ("BINPUT", "LONG_BINPUT", "PUT", "MEMOIZE"):
-            memo[arg if op.name != "MEMOIZE" else n] = last
-            n += 1
-            continue
-        if op.name in ("BINGET", "LONG_BINGET", "GET"):
-            tgt = memo.get(arg)
-            if tgt is None or tgt[0] not in _ATOMS:
-                return None
-            out.append(tgt)
-            last = tgt
-            continue
-        if op.name == "FRAME":
-            continue
-        last = (op.name, arg)
-        out.append(last)
-    return out
-
-
-def pickle_atom_aliasing_only(a, b):
-    x, y = _memo_free(a), _memo_free(b)
-    return a != b and x is not None and x == y
+def pickle_identity_only(stored, value, reserialized):
+    """Two different pickles of *equal plain data*: the bytes (hence the value hash) differ only in how pickle's memo was
+    used, i.e. in which equal sub-objects were one object when the value was first serialized (a str computed by a task vs the
+    equal str read back from the cache; the same list object placed twice vs two equal lists)."""
+    import pickle
+    try:
+        return stored != reserialized and plain(value) and pickle.loads(stored) == value == pickle.loads(reserialized)
+    except Exception:  # noqa: BLE001
+        return False
 
 
 def has_fail(call):
@@ -620,8 +640,14 @@ def run_history(ctx, history, pending, check_schedule=True):
         d1, d2 = a.nodes_seen, b.nodes_seen
         ctx.count("schedule_pairs", "compared")
         if d1 != d2:
-            ctx.violation("C20-id-depends-on-completion-order", "the set of call hashes of a failure-free history changes with the "
-                          "completion order", {"history": history, "other": other}, expected=len(d1), actual=len(d2))
+            if a.sem_nodes() == b.sem_nodes():
+                # same tasks, arguments, results and children everywhere: only hashes of equal values differ
+                ctx.violation("C20-value-key-pickle-aliasing", "call hashes of a failure-free history change with the completion "
+                              "order although every node has equal content: equal result values got different value hashes",
+                              {"history": history, "other": other}, expected=len(d1), actual=len(d2))
+            else:
+                ctx.violation("C20-id-depends-on-completion-order", "the set of call hashes of a failure-free history changes with "
+                              "the completion order", {"history": history, "other": other}, expected=len(d1), actual=len(d2))
     return a
 
 
